@@ -259,13 +259,13 @@ Section Hist2.
     GInv (fst (run_node_sync po lab w cached key outs)).
   Proof.
     intros I Hc. unfold run_node_sync. destruct (w_ctl w) as [m|] eqn:Em; [|exact I].
-    destruct (sync_node po lab (can_patch w key) (api_same w key) (held_cidrs (w_ncache w)) m cached (find_node key (w_ncache w)) outs)
+    destruct (sync_node po lab (svc_list (w_svc w)) (can_patch w key) (api_same w key) (held_cidrs (w_ncache w)) m cached (find_node key (w_ncache w)) outs)
       as [[m' r] fx] eqn:Es.
     cbn [fst]. pose proof (wi_ctl w (g_w w I) m Em) as M.
     destruct (res_eq_panic r) as [->|Hnp].
-    { rewrite (sync_node_panic_writes_nothing _ _ _ _ _ _ _ _ _ _ _ M Es). cbn. apply crashed_ginv. exact I. }
-    destruct (sync_node_keeps _ _ _ _ _ _ _ _ _ _ _ _ M Hc Hnp Es) as (Hmono & Havoid & Hkept).
-    assert (M' : MapInv m') by (eapply sync_node_inv; [exact M|intros n E; apply (Hc n E)|exact Es]).
+    { rewrite (sync_node_panic_writes_nothing _ _ _ _ _ _ _ _ _ _ _ _ M Es). cbn. apply crashed_ginv. exact I. }
+    destruct (sync_node_keeps _ _ _ _ _ _ _ _ _ _ _ _ _ M Hc Hnp Es) as (Hmono & Havoid & Hkept).
+    assert (M' : MapInv m') by (eapply sync_node_inv; [exact M|exact (wi_svc w (g_w w I))|intros n E; apply (Hc n E)|exact Es]).
     assert (Hac : after_call w r m' = set_ctl w (Some m')) by (unfold after_call; destruct r; [reflexivity|reflexivity|contradiction]).
     assert (IA : GInv (after_call w r m')).
     { pose proof (after_call_winv w r m' (g_w w I) M') as W'. rewrite Hac in *.
@@ -275,12 +275,12 @@ Section Hist2.
     assert (Hctl : w_ctl (after_call w r m') = Some m') by (rewrite Hac; reflexivity).
     destruct (patch_dec fx) as [(nm & cs & o & Hin)|Hno].
     - apply (apply_effects_ginv fx _ nm cs IA).
-      + exact (sync_node_patches_wf po lab _ _ _ _ _ _ _ _ _ _ M Es nm cs o Hin).
-      + intros nm' cs' o' Hin'. exact (sync_node_patches_same _ _ _ _ _ _ _ _ _ _ _ _ Es _ _ _ _ _ _ Hin' Hin).
+      + exact (sync_node_patches_wf po lab _ _ _ _ _ _ _ _ _ _ _ M Es nm cs o Hin).
+      + intros nm' cs' o' Hin'. exact (sync_node_patches_same _ _ _ _ _ _ _ _ _ _ _ _ _ Es _ _ _ _ _ _ Hin' Hin).
       + intros n2 d Hh Hne x Hx. apply Hholders in Hh. eapply Havoid; [exact Hin| |exact Hx]. apply (g_held w I m Em n2 d Hh).
       + intros (o' & Hin' & Ho') m0 E0 x Hx. rewrite Hctl in E0. inversion E0; subst m0.
         eapply Hkept; [exact Hin'| |exact Hx].
-        exact (sync_node_applied_is_kept _ _ _ _ _ _ _ _ _ _ _ _ M Es _ _ _ Hin' Ho').
+        exact (sync_node_applied_is_kept _ _ _ _ _ _ _ _ _ _ _ _ _ M Es _ _ _ Hin' Ho').
     - apply (apply_effects_ginv fx _ key [] IA); [constructor| | |].
       + intros nm' cs' o' Hin'. destruct (Hno _ _ _ Hin').
       + intros n2 d _ _ x [].
@@ -409,7 +409,7 @@ Section Hist2.
       assert (Hde : n_deleting (nev_node e) = false) by (apply (g_feed_nd w I); rewrite Ef; left; reflexivity).
       pose proof (handle_nevent_winv (set_caches w (w_ncache w) (w_ccache w) rest (w_cfeed w)) e) as Wh.
       assert (W0 : WInv (set_caches w (w_ncache w) (w_ccache w) rest (w_cfeed w))).
-      { pose proof (g_w w I) as Ww. destruct Ww as [a1 b1 c1 d1 e1 f1 g1 h1 i1]. constructor; cbn; try assumption. rewrite Ef in c1. inversion c1; assumption. }
+      { pose proof (g_w w I) as Ww. destruct Ww as [a1 b1 c1 d1 e1 f1 g1 h1 i1 j1]. constructor; cbn; try assumption. rewrite Ef in c1. inversion c1; assumption. }
       specialize (Wh W0 Hwe).
       unfold handle_nevent in *. destruct e as [n|n|n]; cbn [nev_node] in *.
       + (* add *)
@@ -446,12 +446,12 @@ Section Hist2.
             rewrite <- E, <- Hn. apply in_map. exact Hb.
           - split; [right; exists x, cn; split; [rewrite Ef; right; exact Hx|split; assumption]|].
             intros E. inversion Hdn; subst. apply H1. apply dead_names_in. exists x. split; [exact Hx|congruence]. }
-        cbn [set_caches w_ctl] in *. destruct (w_ctl w) as [m|] eqn:Em.
+        cbn [set_caches w_ctl w_svc] in *. destruct (w_ctl w) as [m|] eqn:Em.
         * pose proof (wi_ctl w (g_w w I) m Em) as M.
-          destruct (release_cidr m n) as [m' r] eqn:Er.
+          destruct (release_cidr (svc_list (w_svc w)) m n) as [m' r] eqn:Er.
           assert (Hkeep : forall nm c, holder (set_caches w (del_node (n_name n) (w_ncache w)) (w_ccache w) rest (w_cfeed w)) nm c -> Held m' nm c).
           { intros nm c Hc. destruct (Hhold nm c Hc) as [Hc' Hne].
-            eapply (release_cidr_keeps m n m' r M Hwe Er nm c); [exact (g_held w I m Em nm c Hc')|exact Hne|].
+            eapply (release_cidr_keeps _ m n m' r M (wi_svc w (g_w w I)) Hwe Er nm c); [exact (g_held w I m Em nm c Hc')|exact Hne|].
             intros c0 canon Hc0. apply (g_disj w I (n_name n) c0 nm c); [|exact Hc'|congruence].
             right. exists n, canon. split; [rewrite Ef; left; reflexivity|split; [reflexivity|exact Hc0]]. }
           destruct r; cbn [fst] in *.
@@ -470,7 +470,7 @@ Section Hist2.
              ++ intros n1 c1 n2 c2 H1 H2. apply Gdj; [apply (Hhold n1 c1 H1)|apply (Hhold n2 c2 H2)].
              ++ intros m0 E0 nm c Hc. inversion E0; subst. apply Hkeep. exact Hc.
           -- apply (crashed_ginv_of w); [exact I| |reflexivity].
-             pose proof (g_w w I) as Ww. destruct Ww as [a1 b1 c1 d1 e1 f1 g1 h1 i1]. constructor; cbn; try assumption.
+             pose proof (g_w w I) as Ww. destruct Ww as [a1 b1 c1 d1 e1 f1 g1 h1 i1 j1]. constructor; cbn; try assumption.
              ++ rewrite Ef in c1. inversion c1; assumption.
              ++ apply Forall_del_node. exact e1.
         * cbn [fst] in *. pose proof I as I0. gsplit I; try assumption.
@@ -500,7 +500,7 @@ Section Hist2.
       apply find_some in Ef. destruct Ef as [Hin _].
       apply run_node_sync_ginv.
       + pose proof I as I0. gsplit I; try assumption.
-        * pose proof (g_w w I0) as Ww. destruct Ww as [a1 b1 c1 d1 e1 f1 g1 h1 i1]. constructor; cbn; try assumption.
+        * pose proof (g_w w I0) as Ww. destruct Ww as [a1 b1 c1 d1 e1 f1 g1 h1 i1 j1]. constructor; cbn; try assumption.
           intros wk' k n Hi. apply filter_In in Hi. destruct Hi as [Hi _]. eapply g1. exact Hi.
         * intros wk' k n Hi. apply filter_In in Hi. destruct Hi as [Hi _]. eapply Gft. exact Hi.
       + intros n E. subst cached. split; [eapply (wi_nfetch w (g_w w I)); exact Hin|eapply (g_fetch w I); exact Hin].
@@ -510,7 +510,7 @@ Section Hist2.
       apply find_some in Ef. destruct Ef as [Hin _].
       apply run_cc_sync_ginv.
       + apply (ginv_same w); try reflexivity; [exact I|].
-        pose proof (g_w w I) as Ww. destruct Ww as [a1 b1 c1 d1 e1 f1 g1 h1 i1]. constructor; cbn; try assumption.
+        pose proof (g_w w I) as Ww. destruct Ww as [a1 b1 c1 d1 e1 f1 g1 h1 i1 j1]. constructor; cbn; try assumption.
         intros wk' k n Hi. apply filter_In in Hi. destruct Hi as [Hi _]. eapply h1. exact Hi.
       + intros n E. subst cached. eapply (wi_cfetch w (g_w w I)). exact Hin.
     - (* ProcNode *)
@@ -613,7 +613,7 @@ Section Hist2.
   Lemma handle_nevent_feed w e : w_nfeed (fst (handle_nevent w e)) = w_nfeed w \/ w_nfeed (fst (handle_nevent w e)) = [].
   Proof.
     unfold handle_nevent. destruct e as [n|n|n]; cbn [set_caches w_ctl]; try (destruct (w_ctl w); left; reflexivity).
-    destruct (w_ctl w) as [m|]; [|left; reflexivity]. destruct (release_cidr m n) as [m' r]. destruct r; cbn; auto.
+    destruct (w_ctl w) as [m|]; [|left; reflexivity]. destruct (release_cidr (svc_list (w_svc w)) m n) as [m' r]. destruct r; cbn; auto.
   Qed.
 
   Lemma step_names w o : tame_op o -> names_ok w (fst (step po lab w o)) (created o).
@@ -714,8 +714,8 @@ Section Hist2.
     assert (Hnoh : forall nm c, ~ holder (mkWorld (w_nodes w) (w_ccs w) (w_rv w) [] [] [] [] empty_q empty_q (if pan then None else Some m) false [] [] (s1, s2) (w_delseen w)) nm c).
     { intros nm c [(a & Ha & _ & (cn & Hcn))|(x & cn & [] & _)]. cbn in Ha. rewrite (Hn a Ha) in Hcn. destruct Hcn. }
     pose proof I as I0. gsplit I; try assumption.
-    - pose proof (g_w w I0) as Ww. destruct Ww as [a1 b1 c1 d1 e1 f1 g1 h1 i1].
-      constructor; cbn; [assumption|assumption|constructor|constructor|constructor|constructor|intros; contradiction|intros; contradiction|exact M].
+    - pose proof (g_w w I0) as Ww. destruct Ww as [a1 b1 c1 d1 e1 f1 g1 h1 i1 j1].
+      constructor; cbn; [assumption|assumption|constructor|constructor|constructor|constructor|intros; contradiction|intros; contradiction|exact M|apply svc_list_wf; assumption].
     - intros e [].
     - intros n [].
     - intros wk key n [].
